@@ -26,7 +26,9 @@ def hostile_block(draw):
     kind = draw(st.integers(0, 9))
     if kind == 9 and draw(st.integers(0, 3)) == 0:
         # a term DAG with heavy sharing: x, 2x, 4x, ... (every level reuses the previous one twice)
-        n = draw(st.integers(12, 19))
+        # depth capped at 13: from ~16 on the analysis exceeds every budget (known finding recursion:search_for_value_aux,
+        # witness replays/C10/shared_dag.json); the cap excludes it by construction so that the search goes on
+        n = draw(st.integers(6, 13))
         op = draw(st.sampled_from(["ADD", "MUL", "AND", "SUB", "XOR"]))
         return [(draw(st.sampled_from(["CALLVALUE", "CALLER", "DUP1"])), None)] + [("DUP1", None), (op, None)] * n + \
             draw(st.sampled_from([[], [("PUSH", 1), ("SSTORE", None)], [("POP", None)]]))
@@ -139,7 +141,9 @@ def classify_run(r):
     if r.kind == "killed":
         return ("killed-by-limit", r.info, "child killed: %s (cpu %.1fs)" % (r.info, r.cpu_s))
     if r.kind == "timeout":
-        return ("killed-by-limit", "wall", "wall-clock watchdog")
+        # the wall-clock watchdog of a child that did not use up its CPU budget says something about the machine
+        # (load), nothing about the tool: inconclusive, never a violation
+        return ("inconclusive", "wall", "wall-clock watchdog")
     if r.kind == "exc":
         return ("exception-escaped", innermost_repo_frame(r.info), "exception escaped: %s" % (r.info[:2],))
     v = r.value
@@ -166,6 +170,10 @@ def check_document(blocks, argv, stats, label, with_fault=None):
         # every failure is decided by a run in a fresh child under hard CPU/memory limits
         r = run_doc(doc, argv, cpu, forked=True)
         bad = classify_run(r)
+    if bad and bad[0] == "inconclusive":
+        stats.inconclusive += 1
+        stats.classes["inconclusive: wall-clock watchdog before the CPU budget was used"] += 1
+        return fails
     if bad:
         kind, cul, detail = bad
         fails.append(runner.Failure(kind, cul, "[%s] %s; contract blocks: %s" % (lab, detail, [x[:80] for x in case["blocks"]]), case))
@@ -186,6 +194,10 @@ def check_document(blocks, argv, stats, label, with_fault=None):
         rf = run_doc(doc, argv, cpu, fault=fname, forked=True)
         bad = classify_run(rf)
     fcase = dict(case, fault=k)
+    if bad and bad[0] == "inconclusive":
+        stats.inconclusive += 1
+        stats.classes["inconclusive: wall-clock watchdog before the CPU budget was used"] += 1
+        return fails
     if bad:
         kind, cul, detail = bad
         fails.append(runner.Failure("fault-not-contained", kind, "[%s] analysis of block %s made to fail: %s" % (lab, fname, detail), fcase))
